@@ -9,7 +9,9 @@
 use crate::mocknode::*;
 use crate::Ctx;
 use futures::StreamExt;
-use scylla::errors::{NextPageError, NextRowError};
+use scylla::client::session::Session;
+use scylla::client::session_builder::SessionBuilder;
+use scylla::errors::{NextPageError, NextRowError, PagerExecutionError};
 use scylla::statement::unprepared::Statement;
 use scylla::value::{CqlValue, Row};
 use scylla::verif_hooks::connection::{VerifConn, VerifConnOptions};
@@ -140,8 +142,82 @@ fn to_cols(cs: &[PCol]) -> Vec<Col> {
     cs.iter().map(|c| Col { name: c.name.clone(), type_id: PTYPES.iter().find(|(t, _)| *t == c.ty).unwrap().1 }).collect()
 }
 
+// --- the two control-connection queries of a Session (system.peers: no rows; system.local: this node) ---
+const T_UUID: &[u8] = &[0x00, 0x0C];
+const T_INET: &[u8] = &[0x00, 0x10];
+const T_TEXT: &[u8] = &[0x00, 0x0D];
+const T_SET_TEXT: &[u8] = &[0x00, 0x22, 0x00, 0x0D];
+
+fn node_cols(local: bool) -> Vec<(&'static str, &'static [u8])> {
+    let mut v = vec![("host_id", T_UUID), ("rpc_address", T_INET), ("data_center", T_TEXT), ("rack", T_TEXT), ("tokens", T_SET_TEXT)];
+    if local {
+        v.push(("cluster_name", T_TEXT));
+    }
+    v
+}
+
+fn write_meta_raw(b: &mut Vec<u8>, cols: &[(&str, &[u8])], table: &str, no_metadata: bool) {
+    w_int(b, if no_metadata { 0x0004 } else { 0x0001 });
+    w_int(b, cols.len() as i32);
+    if !no_metadata {
+        w_string(b, "system");
+        w_string(b, table);
+        for (name, ty) in cols {
+            w_string(b, name);
+            b.extend_from_slice(ty);
+        }
+    }
+}
+
+fn body_prepared_raw(id: &[u8], cols: &[(&str, &[u8])], table: &str) -> Vec<u8> {
+    let mut b = Vec::new();
+    w_int(&mut b, 4);
+    w_short_bytes(&mut b, id);
+    w_int(&mut b, 0x0001);
+    w_int(&mut b, 0);
+    w_int(&mut b, 0);
+    w_string(&mut b, "system");
+    w_string(&mut b, table);
+    write_meta_raw(&mut b, cols, table, false);
+    b
+}
+
+fn body_node_rows(local: bool, no_metadata: bool) -> Vec<u8> {
+    let mut b = Vec::new();
+    w_int(&mut b, 2);
+    write_meta_raw(&mut b, &node_cols(local), if local { "local" } else { "peers" }, no_metadata);
+    if !local {
+        w_int(&mut b, 0);
+        return b;
+    }
+    w_int(&mut b, 1);
+    w_bytes(&mut b, Some(&[0x11; 16]));
+    w_bytes(&mut b, Some(&[127, 0, 0, 1]));
+    w_bytes(&mut b, Some(b"dc1"));
+    w_bytes(&mut b, Some(b"r1"));
+    let mut set = Vec::new();
+    w_int(&mut set, 1);
+    w_bytes(&mut set, Some(b"0"));
+    w_bytes(&mut b, Some(&set));
+    w_bytes(&mut b, Some(b"mock"));
+    b
+}
+
 fn handler(script: Arc<Mutex<Script>>, min_conn: Arc<AtomicUsize>, ext: bool) -> Handler {
+    let mut control: Vec<(Vec<u8>, bool)> = Vec::new();
     Box::new(move |req: &Request| match &req.parsed {
+        Parsed::Prepare { text } if text.contains("system.peers") || text.contains("system.local") => {
+            let local = text.contains("system.local");
+            let id = md5ish(text);
+            if !control.iter().any(|(i, _)| *i == id) {
+                control.push((id.clone(), local));
+            }
+            vec![Action::Respond(RESP_RESULT, body_prepared_raw(&id, &node_cols(local), if local { "local" } else { "peers" }))]
+        }
+        Parsed::Execute { id, params, .. } if control.iter().any(|(i, _)| i == id) => {
+            let local = control.iter().find(|(i, _)| i == id).unwrap().1;
+            vec![Action::Respond(RESP_RESULT, body_node_rows(local, params.skip_metadata))]
+        }
         Parsed::Execute { .. } | Parsed::Prepare { .. } if req.conn < min_conn.load(Ordering::SeqCst) => {
             vec![Action::Respond(RESP_ERROR, body_error(0x1001, "stale connection", &[]))]
         }
@@ -179,17 +255,23 @@ fn handler(script: Arc<Mutex<Script>>, min_conn: Arc<AtomicUsize>, ext: bool) ->
     })
 }
 
+enum Client {
+    Conn(VerifConn),
+    Sess(Session),
+}
+
 struct Env {
     node: MockNode,
     script: Arc<Mutex<Script>>,
     min_conn: Arc<AtomicUsize>,
-    conn: Option<VerifConn>,
+    conn: Option<Client>,
 }
 
 thread_local! {
     static RT: tokio::runtime::Runtime = tokio::runtime::Builder::new_current_thread().enable_all().build().unwrap();
     static ENV0: RefCell<Option<Env>> = const { RefCell::new(None) };
     static ENV1: RefCell<Option<Env>> = const { RefCell::new(None) };
+    static SENV: RefCell<Option<Env>> = const { RefCell::new(None) };
     static CASE_NO: std::cell::Cell<u64> = const { std::cell::Cell::new(0) };
 }
 
@@ -260,8 +342,25 @@ macro_rules! drive {
 }
 
 async fn run_case(case: &PCase, ctx: &mut Ctx) -> String {
-    let cell_env = |f: &dyn Fn(&RefCell<Option<Env>>) -> Option<Env>| if case.ext { ENV1.with(|e| f(e)) } else { ENV0.with(|e| f(e)) };
-    let mut env = cell_env(&|e| e.borrow_mut().take());
+    // `S/<target>`: through Session::execute_iter (one-node mock cluster) instead of the single-connection hook
+    let session = case.target.starts_with("S/");
+    let target = case.target.trim_start_matches("S/").to_owned();
+    let put_back = |env: Env| {
+        if session {
+            SENV.with(|c| *c.borrow_mut() = Some(env))
+        } else if case.ext {
+            ENV1.with(|c| *c.borrow_mut() = Some(env))
+        } else {
+            ENV0.with(|c| *c.borrow_mut() = Some(env))
+        }
+    };
+    let mut env = if session {
+        SENV.with(|e| e.borrow_mut().take())
+    } else if case.ext {
+        ENV1.with(|e| e.borrow_mut().take())
+    } else {
+        ENV0.with(|e| e.borrow_mut().take())
+    };
     if env.is_none() {
         let script = Arc::new(Mutex::new(Script::default()));
         let min_conn = Arc::new(AtomicUsize::new(0));
@@ -275,11 +374,21 @@ async fn run_case(case: &PCase, ctx: &mut Ctx) -> String {
     }
     if env.conn.is_none() {
         env.min_conn.store(env.node.conn_shards().len(), Ordering::SeqCst);
-        match VerifConn::open(env.node.addr, VerifConnOptions::default()).await {
-            Ok(c) => env.conn = Some(c),
-            Err(e) => {
-                ctx.fail(format!("harness: cannot open connection: {e}"));
-                return "HARNESS-ERROR".to_owned();
+        if session {
+            match SessionBuilder::new().known_node_addr(env.node.addr).fetch_schema_metadata(false).build().await {
+                Ok(s) => env.conn = Some(Client::Sess(s)),
+                Err(e) => {
+                    ctx.fail(format!("harness: cannot build session: {e}"));
+                    return "HARNESS-ERROR".to_owned();
+                }
+            }
+        } else {
+            match VerifConn::open(env.node.addr, VerifConnOptions::default()).await {
+                Ok(c) => env.conn = Some(Client::Conn(c)),
+                Err(e) => {
+                    ctx.fail(format!("harness: cannot open connection: {e}"));
+                    return "HARNESS-ERROR".to_owned();
+                }
             }
         }
     }
@@ -292,7 +401,11 @@ async fn run_case(case: &PCase, ctx: &mut Ctx) -> String {
     let mut st = Statement::new(text);
     st.set_page_size(5000);
     let conn = env.conn.as_ref().unwrap();
-    let mut prepared = match conn.prepare(&st).await {
+    let prepared = match conn {
+        Client::Conn(c) => c.prepare(&st).await,
+        Client::Sess(s) => s.prepare(st).await.map_err(|e| e.to_string()),
+    };
+    let mut prepared = match prepared {
         Ok(p) => p,
         Err(e) => {
             ctx.fail(format!("harness: cannot prepare: {e}"));
@@ -300,24 +413,33 @@ async fn run_case(case: &PCase, ctx: &mut Ctx) -> String {
         }
     };
     prepared.set_use_cached_result_metadata(case.skip);
-    let pager = match conn.execute_iter_raw(prepared, SerializedValues::new()).await {
+    let pager = match conn {
+        Client::Conn(c) => c.execute_iter_raw(prepared, SerializedValues::new()).await.map_err(|e| label(&e)),
+        Client::Sess(s) => s.execute_iter(prepared, ()).await.map_err(|e| match e {
+            PagerExecutionError::NextPageError(n) => label(&NextRowError::NextPageError(n)),
+            _ => "err:PagerExecution".to_owned(),
+        }),
+    };
+    let pager = match pager {
         Ok(p) => p,
-        Err(e) => {
-            let l = label(&e);
-            if case.ext { ENV1.with(|c| *c.borrow_mut() = Some(env)) } else { ENV0.with(|c| *c.borrow_mut() = Some(env)) }
+        Err(l) => {
+            put_back(env);
             return format!("ctor:{}", l);
         }
     };
     let idx = |i: usize| i.to_string();
-    let (out, fin): (Vec<Decoded>, String) = match case.target.as_str() {
+    let (out, fin): (Vec<Decoded>, String) = match target.as_str() {
         "t_i32_i64" => drive!(pager, (i32, i64), |r: (i32, i64)| vec![(idx(0), CqlValue::Int(r.0)), (idx(1), CqlValue::BigInt(r.1))]),
         "t_i32_str" => drive!(pager, (i32, String), |r: (i32, String)| vec![(idx(0), CqlValue::Int(r.0)), (idx(1), CqlValue::Text(r.1))]),
         "t_i32" => drive!(pager, (i32,), |r: (i32,)| vec![(idx(0), CqlValue::Int(r.0))]),
         "s_pk_v" => drive!(pager, PkV, |r: PkV| vec![("pk".to_owned(), CqlValue::Int(r.pk)), ("v".to_owned(), CqlValue::BigInt(r.v))]),
         "row" => drive!(pager, Row, |r: Row| r.columns.into_iter().enumerate().map(|(i, c)| (idx(i), c.unwrap_or(CqlValue::Empty))).collect::<Vec<_>>()),
-        _ => return "bad-case".to_owned(),
+        _ => {
+            put_back(env);
+            return "bad-case".to_owned();
+        }
     };
-    if case.ext { ENV1.with(|c| *c.borrow_mut() = Some(env)) } else { ENV0.with(|c| *c.borrow_mut() = Some(env)) }
+    put_back(env);
 
     // ---- oracle: every delivered row against the columns of the page it came from ----
     let eff = |pi: usize| -> Vec<PCol> { effective_cols(&case.prepared, &case.pages, pi, case.ext) };
@@ -334,10 +456,10 @@ async fn run_case(case: &PCase, ctx: &mut Ctx) -> String {
             break;
         };
         let cols = eff(pi);
-        if target_fits(&case.target, &cols) != Some(true) {
+        if target_fits(&target, &cols) != Some(true) {
             ctx.fail(format!(
                 "reinterpretation: row {} of page {} (columns `{}`) was decoded as {} = {:?} although the page's own columns do not fit that type",
-                k, pi, cols_str(&cols), case.target, vals
+                k, pi, cols_str(&cols), target, vals
             ));
             continue;
         }
@@ -358,13 +480,13 @@ async fn run_case(case: &PCase, ctx: &mut Ctx) -> String {
     let first_cols = if case.pages.is_empty() { case.prepared.clone() } else { eff(0) };
     match fin.as_str() {
         "ctor:TypeCheck" => {
-            if target_fits(&case.target, &first_cols) == Some(true) {
+            if target_fits(&target, &first_cols) == Some(true) {
                 ctx.fail("docs: rows_stream::<T>() refused a first page whose columns fit T".to_owned());
             }
         }
         "TypeCheck" => match page_of.get(out.len()) {
-            Some(&pi) if target_fits(&case.target, &eff(pi)) == Some(true) => {
-                ctx.fail(format!("docs: page {} fits {} but the stream answered a type-check error", pi, case.target))
+            Some(&pi) if target_fits(&target, &eff(pi)) == Some(true) => {
+                ctx.fail(format!("docs: page {} fits {} but the stream answered a type-check error", pi, target))
             }
             Some(_) => {}
             None => ctx.fail("type-check error after the last row".to_owned()),
@@ -381,7 +503,7 @@ async fn run_case(case: &PCase, ctx: &mut Ctx) -> String {
 
 pub fn run(line: &str, ctx: &mut Ctx) -> String {
     let Some(case) = parse_case(line) else { return "bad-case".to_owned() };
-    if target_fits(&case.target, &[]).is_none() {
+    if target_fits(case.target.trim_start_matches("S/"), &[]).is_none() || (case.target.starts_with("S/") && case.ext) {
         return "bad-case".to_owned();
     }
     RT.with(|rt| rt.block_on(run_case(&case, ctx)))
